@@ -575,6 +575,17 @@ def c04_all():
     return c04() + c04_generated() + [{"kind": "stack_model", "depth": 2}]
 
 
+def c09():
+    stateful = "{% assign a = x %}{% increment c %}{% cycle 'p', 'q', 'r' %}{% for i in (1..3) %}{% ifchanged %}{{ i | divided_by: 2 }}{% endifchanged %}{% if i == 2 %}{% break %}{% endif %}{% endfor %}{{ a }}{% capture k %}{{ a }}!{% endcapture %}{{ k }}{% decrement c %}"
+    failing_midway = "{% increment c %}{% cycle 'p', 'q' %}{% for i in (1..3) %}{{ i }}{% if i == 2 %}{% break %}{{ missing }}{% endif %}{% endfor %}{% capture k %}{{ x | divided_by: 0 }}{% endcapture %}"
+    with_partial = "{% include 'p' %}{% render 'p' %}{% increment c %}{{ v }}"
+    tpls = [stateful, failing_midway, with_partial]
+    datas = [{"x": 1}, {"x": "s", "v": "outer"}]
+    partials = {"p": "{% assign v = 'set-by-partial' %}{% cycle 'a', 'b' %}{% increment c %}"}
+    return [{"kind": "render_history", "templates": tpls, "datas": datas, "length": 3, "partials": partials},
+            {"kind": "render_history", "templates": tpls[:2], "datas": datas, "length": 5}]
+
+
 def c11():
     return [{"kind": "value_laws"}] + [w for w in c06() if w["kind"] == "render_same"]
 
@@ -583,7 +594,7 @@ def c12():
     return [{"kind": "conversions"}]
 
 
-BATTERIES = {"C11": c11, "C12": c12, "C04": c04_all, "C05": c05, "C06": c06, "C07": c07, "C10": c10, "C13": c13, "C15": c15, "C18": c18}
+BATTERIES = {"C09": c09, "C11": c11, "C12": c12, "C04": c04_all, "C05": c05, "C06": c06, "C07": c07, "C10": c10, "C13": c13, "C15": c15, "C18": c18}
 
 
 def battery(prop, thorough=False):
